@@ -26,6 +26,9 @@ const libMod = "github.com/ryogrid/SamehadaDB/lib"
 const srvMod = "github.com/ryogrid/SamehadaDB/server"
 
 type World struct {
+	byKey map[string]*ssa.Function
+	valueUse map[*ssa.Function]bool
+	bpmHelperCache map[*ssa.Function]bpmHelper
 	RepoRoot string
 	Fset     *token.FileSet
 	Pkgs     []*packages.Package          // repo packages only (lib + server [+ tests])
